@@ -69,6 +69,13 @@ TEXT["C04"] = {
     "design_ref": "DESIGN.md section 3, C04",
 }
 
+TEXT["C05"] = {
+    "technique": "property-based testing (rapid) of concurrent workloads under the Go race detector; differential against sequential fresh-compile results",
+    "text": "Generated deterministic programs are compiled once and executed by 2-8 goroutines (1-12 repetitions each, all four entry points, some with injected faults) released together by a barrier while further goroutines call FromCache/FromFile on the same set, with GOMAXPROCS 2/4/16, in a binary built with -race and GORACE=halt_on_error. A race report kills the worker; the write-ahead journal identifies the workload, which is confirmed in fresh processes before it is reported. Every concurrent result must equal what the same context gives on a freshly compiled template executed alone. Exploration-level: schedules are sampled.",
+    "note": "Trusted: the Go race detector and the harness' barrier. Schedules are sampled, not enumerated; the static facet (every write reachable from execution entry points) is not decided.",
+    "design_ref": "DESIGN.md section 3, C05",
+}
+
 PENDING_REASON = "check not built yet in this build phase (DESIGN.md section 3 describes the planned PBT check); will be claimed once its quick tier is silent on the unchanged tree and kills its mutants"
 
 
